@@ -1,4 +1,5 @@
 """C16 — arithmetic on run-length arrays equals arithmetic on the dense arrays."""
+import warnings
 import numpy as np
 import engine, gens, rlgen
 from engine import canon, guarded, refuse
@@ -71,6 +72,8 @@ def cases(rng, tier):
         a = rlgen.array_random(rng, n)[:n]; a = (a + [0] * n)[:n]
         b = rlgen.array_random(rng, n)[:n]; b = (b + [1] * n)[:n]
         out.append({"kind": "arrays", "a": a, "b": b, "f": rng.choice(BIN), "dta": "int64", "dtb": "int64"})
+        if rng.random() < 0.5:
+            out.append({"kind": "arrays", "a": a, "b": b, "f": rng.choice(BIN), "dta": rng.choice(["int64", "int32", "uint32"]), "dtb": "int64", "split": True})
         if rng.random() < 0.15:
             out.append({"kind": "arrays", "a": a, "b": b + [0], "f": "add", "dta": "int64", "dtb": "int64"})
         if rng.random() < 0.3:
@@ -167,7 +170,21 @@ def run_impl(p):
                 res = uf(p["c"], x)
             else:
                 y = RunLengthArray.from_array(_vals(p["b"], p["dtb"]))
+                if p.get("split") and np.dtype(p["dta"]).kind in "iu" and np.dtype(p["dta"]).itemsize >= 4:
+                    # the first operand is itself a RESULT (a scalar ufunc keeps the run boundaries of ITS operand): neighbouring runs
+                    # hold equal values; it must behave like the freshly encoded array, and still decode to the same cells afterwards
+                    dense = _vals(p["a"], p["dta"], p.get("vm", True)).astype(np.int64)
+                    if np.all(np.abs(dense) < 2 ** 40):
+                        par = (np.arange(len(dense)) // 2) % 2
+                        x = (RunLengthArray.from_array(dense * 2 + par) // 2).astype(p["dta"])
+                        xe, xv = x._events.copy(), np.asarray(x._values).copy()
+                        if not np.array_equal(x.to_array(), dense.astype(p["dta"])):
+                            raise AssertionError("harness: derived operand does not decode to the intended cells")
                 res = uf(x, y)
+                if p.get("split"):
+                    again = x.to_array()
+                    if not np.array_equal(again, _vals(p["a"], p["dta"], p.get("vm", True))):
+                        raise AssertionError("an operand decodes to other cells after the operation")
             o = _rl(res, joined=(k == "arrays"))
             if isinstance(o, dict) and o.get("k") == "obs":
                 o["operand_unmodified"] = canon(bool(np.array_equal(x._events, xe) and np.array_equal(np.asarray(x._values), xv, equal_nan=(xv.dtype.kind == "f"))))
@@ -178,7 +195,8 @@ def run_impl(p):
 def oracle(p):
     k = p["kind"]
     try:
-        with np.errstate(all="ignore"):
+        with np.errstate(all="ignore"), warnings.catch_warnings():
+            warnings.simplefilter("ignore")
             if k == "concat":
                 return {"k": "obs", "decoded": canon(np.concatenate([_vals(a, p["dta"]) for a in p["parts"]])), "canonical": canon(True)}
             a = _vals(p["a"], p["dta"], p.get("vm", True))
